@@ -53,21 +53,27 @@ def walk_probe(run, tier, nprng, torch_too=False, prop="C02"):
         specs = []
         for tlen in range(1, D + 1):
             specs.append((start, nprng.randn(tlen) + 1j * nprng.randn(tlen)))
+        # a response with no bin at all, and one whose only bins are zero: the definition gives 0 (the floor, in log)
+        if not torch_too:  # (the torch module documents that it refuses a bank with an empty filter)
+            specs.append((start, np.zeros(0, dtype=np.complex128)))
+        specs.append((start, np.zeros(1, dtype=np.complex128)))
         bank = stubs.OneHotBank(specs, D, real=False)
         x = nprng.randn(D)
-        for power in (False, True):
-            c = stubs.make_stft(D, D, "causal", bank=bank, window=stubs.Ramp(), use_log=False, use_power=power)
+        for power, log in ((False, False), (True, False), (bool(start & 1), True)):
+            c = stubs.make_stft(D, D, "causal", bank=bank, window=stubs.Ramp(), use_log=log, use_power=power)
             got = c.compute_full(x)
             outs = [("numpy", got)]
             if torch_too:
                 tc = PyTorchSTFTFrameComputer.from_stft_frame_computer(c, filter_type=torch.cdouble, window_type=torch.double)
                 outs.append(("torch", tc(torch.tensor(x)).detach().numpy()))
-            exp = V.features(x, stubs.Ramp().get_impulse_response(D), D, specs, False, power, False, False, walk)
+            exp = V.features(x, stubs.Ramp().get_impulse_response(D), D, specs, False, power, log, False, walk)
             # machinery self-check: the spec's half-spectrum pairs give the same number as its full-spectrum bins
             Xh = np.fft.rfft(x * stubs.Ramp().get_impulse_response(D), D)
             for i, (s, t) in enumerate(specs):
                 a = np.abs(Xh[row["pairs"][:len(t)]] * t)
                 viaPairs = np.sum(a * a) if power else np.sum(a)
+                if log:
+                    viaPairs = np.log(max(viaPairs, V.pconfig.LOG_FLOOR_VALUE))
                 if not np.isclose(viaPairs, exp[i], rtol=1e-9):
                     raise common.MachineryError("spec self-check failed: Pair and FullBin disagree for D=%d start=%d len=%d" % (D, s, len(t)))
             if prop == "C14":
@@ -83,8 +89,8 @@ def walk_probe(run, tier, nprng, torch_too=False, prop="C02"):
                 if not ok.all():
                     i = int(np.argwhere(~ok)[0][0])
                     nbad += 1
-                    run.violation({"kind": "walk_pairs_tap_with_wrong_bin_" + name, "impl": name, "D": D, "start": start, "tlen": i + 1,
-                                   "power": power, "got": float(g[0, i]), "definition": float(exp[i]),
+                    run.violation({"kind": "walk_pairs_tap_with_wrong_bin_" + name, "impl": name, "D": D, "start": start, "tlen": len(specs[i][1]),
+                                   "power": power, "log": log, "got": float(g[0, i]), "definition": float(exp[i]),
                                    "n_wrong_lengths": int((~ok).sum()),
                                    "spec_pairs": row["pairs"][: i + 1]})
     run.sample({"walk_row": walk[(8, 6)] if (8, 6) in walk else next(iter(walk.values()))})
@@ -150,6 +156,11 @@ def value_level(run, tier, nprng, walk, torch_too=False, prop="C02"):
                         if tier == "quick" and (bi + L + len(st) + pad) % 3:
                             continue  # quick: a third of the matrix, deterministic
                         combos.append((rate, bname, mk, L, S, st, pad))
+    # explicit frames so short that some mel filters have no DFT bin at all: those coefficients are 0 (the floor, in log)
+    for (L, S) in ((80, 40), (128, 64)):
+        for st in ("centered", "causal"):
+            for pad in (False, True):
+                combos.append((16000, "fbank40_short", lambda: filters.Fbank(num_filts=40, sampling_rate=16000), L, S, st, pad))
     run.extra["value_level_configs"] = len(combos)
     # all frames needed, exported by TLC in one go
     plan = []
@@ -175,6 +186,8 @@ def value_level(run, tier, nprng, walk, torch_too=False, prop="C02"):
             continue
         win = windows[k % len(windows)]
         log, power, energy = bool(k & 1), bool(k & 2), bool(k & 4)
+        if bname.endswith("_short"):
+            log = True
         ms = 1000.0 / rate
         c = compute.STFTFrameComputer(bank, frame_length_ms=L * ms + ms / 4, frame_shift_ms=S * ms + ms / 4,
                                       frame_style="causal" if st in ("causal", "causal+k") else "centered", kaldi_shift=(st in ("kaldi", "causal+k")),
